@@ -256,8 +256,10 @@ class TemplateLookup(TemplateCollection):
         """Adjust the given ``uri`` based on the given relative URI."""
 
         key = (uri, relativeto)
-        if key in self._uri_cache:
+        try:
             return self._uri_cache[key]
+        except KeyError:
+            pass
 
         if uri.startswith("/"):
             v = self._uri_cache[key] = uri
